@@ -397,6 +397,26 @@ def replay_graph(EoN, rec):
         raise RuntimeError("harness built a graph whose degrees %r differ from the specification's %r"
                            % ([G.degree(u) for u in range(1, n + 1)], deg))
     where = "graph"
+    m = G.number_of_edges()
+    if m > 0 and sum(w) % 2 == 0:
+        # a history: the SAME Graph object first had another structure with the same numbers of nodes and edges
+        # (so anything remembered per graph object, or validated only by those counts, is stale), was passed to
+        # the helpers, and was then rewired in place into the graph of this record
+        target = [(u, v, dict(d)) for (u, v, d) in G.edges(data=True)]
+        pl = pair_list(n)
+        earlier = pl[:m] if set(pl[:m]) != set((u, v) for (u, v, _) in target) else pl[-m:]
+        if set(earlier) != set((u, v) for (u, v, _) in target):
+            G.remove_edges_from(list(G.edges()))
+            G.add_edges_from(earlier, weight=1.0)
+            for f in (EoN.get_Pk, EoN.get_Pnk, lambda H: EoN.estimate_R0(H, transmissibility=0.5)):
+                try:
+                    f(G)
+                except Exception:
+                    pass
+            G.remove_edges_from(list(G.edges()))
+            G.add_edges_from(target)
+            where = "graph rewired in place after an earlier call"
+            rp["call"] += " (the Graph object earlier had edges %r and was passed to get_Pk/get_Pnk/estimate_R0)" % (earlier,)
     calls = _check_pk(EoN, G, pklist, rp, probs, where)
     # get_Pnk
     calls += 1
